@@ -152,13 +152,17 @@ func (s *SchemaValidator) Validate(data interface{}) *Result {
 
 	if data == nil {
 		// early exit with minimal validation
-		result.Merge(s.validators[0].Validate(data)) // type validator
-		result.Merge(s.validators[6].Validate(data)) // common validator
-
+		// a validator redeems itself when it runs: release its slot first, so that it is not
+		// redeemed again by redeemChildren should it panic
+		typeValidator, commonValidator := s.validators[0], s.validators[6]
 		if s.Options.recycleValidators {
 			s.validators[0] = nil
+		}
+		result.Merge(typeValidator.Validate(data))
+		if s.Options.recycleValidators {
 			s.validators[6] = nil
 		}
+		result.Merge(commonValidator.Validate(data))
 
 		return result
 	}
@@ -223,10 +227,11 @@ func (s *SchemaValidator) Validate(data interface{}) *Result {
 			continue
 		}
 
-		result.Merge(v.Validate(d))
 		if s.Options.recycleValidators {
+			// released before running: the validator redeems itself, even if it panics
 			s.validators[idx] = nil // prevents further (unsafe) usage
 		}
+		result.Merge(v.Validate(d))
 		result.Inc()
 	}
 	result.Inc()
